@@ -127,3 +127,14 @@ Definition w_bin_array_negative : list value :=
 Theorem k__jitbin_array_negative_bin_size_refuted :
   exists site, run 200 k__jitbin_array w_bin_array_negative = Err (OOB site).
 Proof. eexists. vm_compute. reflexivity. Qed.
+
+(* 3. _overlap_split is proved safe for interval_size > 0, 0 <= overlap < 1 and start_k <= end_k
+   (Inv/Overlap_split.v).  compute_mean_psd validates overlap but not the sign of interval_size:
+   with interval_size = -1 s, overlap = 0 and the epoch [0, 0.5] the buffer has one row, the scan
+   `t + interval_size < end[k]` never stops, and the second window is written out of bounds. *)
+Definition w_overlap_negative : list value :=
+  [Ar (A1 DFlt [fl 0 1]); Ar (A1 DFlt [fl 1 2]); Sc (fl (-1) 1); Sc (fl 0 1)].
+
+Theorem k__overlap_split_negative_interval_size_refuted :
+  exists site, run 200 k__overlap_split w_overlap_negative = Err (OOB site).
+Proof. eexists. vm_compute. reflexivity. Qed.
